@@ -109,7 +109,7 @@ def dump_edges(work, module, cfg_text, env=None, marker="EDGE", timeout=900, hea
     return r
 
 
-def evaluate(work, module, records, shard_size=2000, jobs=8, timeout=900, env=None, heap="3g"):
+def evaluate(work, module, records, shard_size=2000, jobs=8, timeout=900, env=None, heap="3g", cfg_text=""):
     """Evaluate records (list of JSON-able dicts) with evaluator module `module`.
 
     The module must define, with EXTENDS Json, IOUtils:
@@ -119,7 +119,7 @@ def evaluate(work, module, records, shard_size=2000, jobs=8, timeout=900, env=No
     """
     if not records:
         return []
-    prepare(work, module, "")
+    prepare(work, module, cfg_text)
     shards = [records[i:i + shard_size] for i in range(0, len(records), shard_size)]
 
     def run(k):
